@@ -2,5 +2,5 @@
 #include "common.h"
 namespace hz {
 #define STUB(n) __attribute__((weak)) Outcome n(RunCtx&) { Outcome o; return o; }
-STUB(RunC19) 
+
 }
